@@ -1805,6 +1805,44 @@ def m_bm_kw_get(self, st, kw, pos, kws, k):
     raise Untranslated('k.get(%r)' % (key.py if isinstance(key, VStr) else key,))
 
 
+def m_x_GeneratorExp(self, st, n, k):
+    """a generator expression is only supported as the argument of any()/all(): an opaque lazy value"""
+    v = V()
+    v.kind = 'genexp'
+    v.node = n
+    return k(st, v)
+
+
+def _any_all(self, st, pos, k, which):
+    v = pos[0]
+    if getattr(v, 'kind', '') == 'genexp':
+        # over-approximation: any truth value (the element expressions are assumed not to raise and to have no effects)
+        self.used_assumptions.add('any()/all() over a generator expression: the result is unconstrained (element expressions assumed pure and non-raising)')
+        return k(st, VBool(fresh(which + '_genexp', T.B)))
+    raise Untranslated('%s(%s)' % (which, v.kind))
+
+
+def m_bi_any(self, st, pos, kws, k):
+    return _any_all(self, st, pos, k, 'any')
+
+
+def m_bi_all(self, st, pos, kws, k):
+    return _any_all(self, st, pos, k, 'all')
+
+
+def m_bm_bytes_decode(self, st, v, pos, kws, k):
+    """bytes.decode(): a str that is a function of the bytes; undecodable input raises UnicodeDecodeError (a ValueError)"""
+    ok = z3.Function('bytes_decodable', T.Bytes, T.B)(v.z)
+    res = VStr(z3.Function('bytes_decode', T.Bytes, T.S)(v.z))
+    return self.with_raises(st, [(z3.Not(ok), 'UnicodeDecodeError')], lambda st: k(st, res))
+
+
+def m_bm_dyn_decode(self, st, v, pos, kws, k):
+    isb = T.Val.is_VBy(v.z)
+    return self.with_raises(st, [(z3.Not(isb), 'AttributeError')],
+                            lambda st: self.bm_bytes_decode(st, VBytes(T.Val.byval(v.z)), pos, kws, k))
+
+
 def m_bm_kw_setdefault(self, st, kw, pos, kws, k):
     """k.setdefault(name, value) on the keyword dictionary held in a local: keeps an existing entry"""
     key, val = pos[0], pos[1]
